@@ -120,7 +120,7 @@ def run_case(case):
     res = {}
     # sync
     tr = M.Trace()
-    m = create_machine(copy.deepcopy(cfg), logic=M.make_logic(cfg, tr))
+    m = create_machine(M.materialize(cfg), logic=M.make_logic(cfg, tr))
     it = SyncInterpreter(m)
     segs = []
     try:
@@ -138,7 +138,7 @@ def run_case(case):
 
     async def go():
         tr2 = M.Trace()
-        m2 = create_machine(copy.deepcopy(cfg), logic=M.make_logic(cfg, tr2))
+        m2 = create_machine(M.materialize(cfg), logic=M.make_logic(cfg, tr2))
         it2 = Interpreter(m2)
         segs2 = []
         n = {"k": 0}
